@@ -349,7 +349,7 @@ fn c03_repair_oneway_leaves_other_direction() {
     kani::cover!(ex_ab, "repairing b->a leaves a->b partitioned");
 }
 }
-// @verif id=C03 tier=thorough role=partition_ops timeout=900 desc=partition_oneway(b,a)
+// @verif id=C03 tier=quick role=partition_ops timeout=900 desc=partition_oneway(b,a)
 crate::verif_proof! { unwind = 5;
 fn c03_partition_oneway_reverse() {
     let (d0, d1, _) = partition_op(2, Some((false, true)));
@@ -493,6 +493,15 @@ fn c14_tick_leaves_undue_message_queued() {
     let (left, moved) = hold_release::<2>([true, true], [false, true], false, false);
     assert!(left == 1 && moved == 1);
     kani::cover!(moved == 1, "later message with shorter latency overtakes");
+}
+}
+// @verif id=C08 tier=quick role=release_delivers timeout=900 desc=three-held-messages-one-direction
+crate::verif_proof! { unwind = 6;
+#[kani::stub(std::collections::VecDeque::remove, crate::verif_common::vecdeque_remove_stub)]
+fn c08_release_three_held_messages_in_send_order() {
+    let (left, moved) = hold_release::<3>([true, true, true], [true, false, true], true, true);
+    assert!(left == 0 && moved == 3);
+    kani::cover!(moved == 3, "three released in send order");
 }
 }
 // @verif id=C08,C14 tier=thorough role=tick_matures_due timeout=900 desc=three-messages,two-directions
